@@ -386,9 +386,40 @@ fn main() {
             // threads one after the other, in the given permutation; each still on its own thread
             let perm = arg(&args, "--perm").map(|s| list(&s)).unwrap_or_else(|| (0..threads).collect());
             let mut outs: Vec<Option<ThreadOut>> = (0..threads).map(|_| None).collect();
-            for &tid in &perm {
-                let h = std::thread::spawn(move || history(tid, hseed, ops, long, bulk, churn, stagger, stamped, None));
-                outs[tid] = Some(h.join().unwrap());
+            // when the concurrent program let the main thread take part as thread 0, the
+            // sequential reference does the same: all worker threads are spawned first (in index
+            // order, as the concurrent program does, so that anything tied to spawn order or
+            // thread identity is reproduced) and park until it is their turn
+            if main_participates {
+                let turn = Arc::new(AtomicUsize::new(0));
+                let hs: Vec<_> = (1..threads)
+                    .map(|tid| {
+                        let turn = turn.clone();
+                        let slot = perm.iter().position(|t| *t == tid).expect("perm must name every thread");
+                        std::thread::spawn(move || {
+                            while turn.load(Ordering::Acquire) != slot {
+                                std::thread::yield_now();
+                            }
+                            let o = history(tid, hseed, ops, long, bulk, churn, 0, stamped, None);
+                            turn.store(slot + 1, Ordering::Release);
+                            o
+                        })
+                    })
+                    .collect();
+                let slot0 = perm.iter().position(|t| *t == 0).expect("perm must name every thread");
+                while turn.load(Ordering::Acquire) != slot0 {
+                    std::thread::yield_now();
+                }
+                outs[0] = Some(history(0, hseed, ops, long, bulk, churn, 0, stamped, None));
+                turn.store(slot0 + 1, Ordering::Release);
+                for (i, h) in hs.into_iter().enumerate() {
+                    outs[i + 1] = Some(h.join().unwrap());
+                }
+            } else {
+                for &tid in &perm {
+                    let h = std::thread::spawn(move || history(tid, hseed, ops, long, bulk, churn, stagger, stamped, None));
+                    outs[tid] = Some(h.join().unwrap());
+                }
             }
             for (tid, o) in outs.iter().enumerate() {
                 print_out(tid, o.as_ref().expect("perm must name every thread"), stamped);
@@ -398,14 +429,22 @@ fn main() {
             // concurrent threads, but node creations serialised in the prescribed global order
             let order = list(&arg(&args, "--order").expect("--order"));
             let baton = Arc::new(Baton { order, turn: AtomicUsize::new(0) });
-            let hs: Vec<_> = (0..threads)
+            let first = if main_participates { 1 } else { 0 };
+            let hs: Vec<_> = (first..threads)
                 .map(|tid| {
                     let b = baton.clone();
                     std::thread::spawn(move || history(tid, hseed, ops, long, bulk, churn, 0, stamped, Some(&b)))
                 })
                 .collect();
-            for (tid, h) in hs.into_iter().enumerate() {
-                print_out(tid, &h.join().unwrap(), stamped);
+            let mut outs: Vec<ThreadOut> = Vec::new();
+            if main_participates {
+                outs.push(history(0, hseed, ops, long, bulk, churn, 0, stamped, Some(&baton)));
+            }
+            for h in hs {
+                outs.push(h.join().unwrap());
+            }
+            for (tid, o) in outs.iter().enumerate() {
+                print_out(tid, o, stamped);
             }
         }
         _ => {
